@@ -297,7 +297,7 @@ func StdData(r *rand.Rand) val.V {
 		{K: "u0", V: val.Uint("uint8", uint64(r.Intn(200)))},
 		{K: "fid", V: val.Fn("id")}, {K: "ferr", V: val.Fn("err")}, {K: "fsum", V: val.Fn("sum")}, {K: "fcat", V: val.Fn("cat")},
 		{K: "fnums", V: val.Fn("nums")}, {K: "fstrs", V: val.Fn("strs")}, {K: "fctx", V: val.Fn("ctx")}, {K: "fnoret", V: val.Fn("noret")},
-		{K: "fone", V: val.Fn("one")}, {K: "fpanic", V: val.Fn("panic")}, {K: "fnildec", V: val.Fn("retnildec")}, {K: "fnilptr", V: val.Fn("retnilptr")}, {K: "fanys", V: val.Fn("anys")}, {K: "ftime", V: val.Fn("time")}, {K: "fmap", V: val.Fn("mapf")},
+		{K: "fone", V: val.Fn("one")}, {K: "fpanic", V: val.Fn("panic")}, {K: "fnildec", V: val.Fn("retnildec")}, {K: "fnilptr", V: val.Fn("retnilptr")}, {K: "fanys", V: val.Fn("anys")}, {K: "ftime", V: val.Fn("time")}, {K: "fmap", V: val.Fn("mapf")}, {K: "fcurry", V: val.Fn("curry")},
 	}
 	// odd kinds under fixed names
 	kv = append(kv, val.KV{K: "x0", V: val.RandValue(r, 2)}, val.KV{K: "x1", V: val.RandValue(r, 3)}, val.KV{K: "x2", V: val.RandScalar(r)}, val.KV{K: "odd", V: val.OddKind(r)}, val.KV{K: "odd2", V: val.OddKind(r)})
@@ -305,7 +305,7 @@ func StdData(r *rand.Rand) val.V {
 }
 
 var stdNames = []string{"n0", "n1", "s0", "s1", "b0", "z", "m", "tm", "arr", "strs", "ms", "st", "pst", "nilp", "nd", "ra", "rb", "t0", "d0", "u0", "x0", "x1", "x2", "odd", "odd2", "undefinedname", "$v", "$w", "se", "mu"}
-var stdFuncs = []string{"fid", "ferr", "fsum", "fcat", "fnums", "fstrs", "fctx", "fnoret", "fone", "fpanic", "fanys", "ftime", "fmap", "fnildec", "fnilptr", "undefinedfn", "n0", "s0", "m", "z"}
+var stdFuncs = []string{"fid", "ferr", "fsum", "fcat", "fnums", "fstrs", "fctx", "fnoret", "fone", "fpanic", "fanys", "ftime", "fmap", "fnildec", "fnilptr", "fcurry", "undefinedfn", "n0", "s0", "m", "z"}
 var stdMembers = []string{"k", "name", "b", "f", "A", "S", "M", "priv", "Z", "missing", "Qty", "Price", "Note", "Name", "L", "R", "SelfNode", "MutRight"}
 
 // safeBuiltins: every builtin except lpad/rpad (whose length argument is generated
